@@ -276,7 +276,8 @@ func checkBasic(c *vrun.Ctx, rng *rand.Rand, bc *basicCase, exp map[int]tla.Valu
 		// the indexer: blockchain/indexers CfIndex.ConnectBlock with the spent outputs
 		stxos := make([]blockchain.SpentTxOut, len(bb.spent))
 		for i, s := range bb.spent {
-			stxos[i] = blockchain.SpentTxOut{Amount: int64(1000 + i), PkScript: s, Height: int32(k + 1)}
+			// whether a coinbase created the spent output must not matter to the index
+			stxos[i] = blockchain.SpentTxOut{Amount: int64(1000 + i), PkScript: s, Height: int32(k + 1), IsCoinBase: (i+k)%2 == 0}
 		}
 		ublk := btcutil.NewBlock(bb.msg)
 		ublk.SetHeight(int32(k + 1))
